@@ -51,4 +51,25 @@ PROPS = {
     "LEX": {"level": "other", "cone": [], "explanation": "internal: lexer model vs lexer.NextToken"},
     "PARSE": {"level": "other", "cone": [], "explanation": "internal: parser model vs parser.Parse"},
     "RENDER": {"level": "other", "cone": [], "explanation": "internal: evaluator model vs plush.Render on a fixed battery"},
+    "C03": {
+        "level": "proof",
+        "cone": ["model/Bytes.v", "model/Lexer.v", "model/Ast.v", "model/Parser.v", "proofs/LexerProofs.v", "proofs/ParserProofs.v", "props/C03.v"],
+        "trusted_base": COMMON_TB + [
+            "model/Lexer.v and model/Parser.v are hand transcriptions of lexer/lexer.go and parser/parser.go (cursor conventions, error recording, String()-derived rewiring included); tied to the code by token-stream and program-dump correspondence",
+            "strconv.Atoi / ParseFloat on number literals are modelled (range check only)",
+        ],
+        "assumptions": [],
+        "explanation": "totality theorems on the lexer/parser model + differential runs (token streams, parsed-program dumps, error lines) + recover/watchdog oracle on Parse",
+    },
+    "C04": {
+        "level": "proof",
+        "cone": ["model/Value.v", "model/Eval.v", "proofs/EvalProofs.v", "props/C04.v"],
+        "trusted_base": COMMON_TB + [
+            "model/Eval.v + model/Value.v transcribe compiler.go, helper_context.go, partial_helper.go and helpers/content; reflect is modelled by case analysis on the value universe (29 kinds of the shared family), not verified",
+            "Go-only value kinds (sized ints, named types, arrays, channels, time.Time, Stringers, pointer-to-pointer, odd func signatures) and the helpers env/debug/inflections/pathFor/form are NOT modelled: they are judged by the recover oracle only",
+            "unbounded recursion through user functions ends in a Go stack overflow: outside the property (divergent templates) and outside the model (fuel)",
+        ],
+        "assumptions": [],
+        "explanation": "no-panic theorem on the evaluator model + exhaustive kind matrices run on the implementation under recover/watchdog and re-evaluated by the model",
+    },
 }
